@@ -128,6 +128,11 @@ def run_suite(pid, repo, seed=0, jobs=8):
     cat = load_catalog()
     mine = [e for e in cat if e.get("kind", "mutant") == "mutant" and e["pid"] == pid]
     refs = [e for e in cat if e.get("kind") == "refactor" and pid in e.get("pids", [])]
+    only = os.environ.get("OOMD_MUT_ONLY")      # debugging aid: regular expression on the entry name
+    if only:
+        import re
+        mine = [e for e in mine if re.search(only, e["name"])]
+        refs = [e for e in refs if re.search(only, e["name"])]
     base, rc, out = _violations(pid, repo)
     if base is None:
         raise AnalysisBroken("baseline run failed before mutant suite: " + out[-300:])
